@@ -46,7 +46,7 @@ def wrap(v, tk):
 
 
 class Path(object):
-    __slots__ = ("pc", "env", "events", "end", "blocks", "ret")
+    __slots__ = ("pc", "env", "events", "end", "blocks", "ret", "nforks", "seenf")
 
     def __init__(self):
         self.pc = {}
@@ -55,6 +55,8 @@ class Path(object):
         self.end = None
         self.blocks = []
         self.ret = None
+        self.nforks = 0
+        self.seenf = {}
 
     def clone(self):
         p = Path()
@@ -64,6 +66,8 @@ class Path(object):
         p.end = self.end
         p.blocks = list(self.blocks)
         p.ret = self.ret
+        p.nforks = self.nforks
+        p.seenf = dict(self.seenf)
         return p
 
     def rng(self, sym, default=(-(1 << 70), 1 << 70)):
@@ -89,13 +93,13 @@ class Interp(object):
         ch = [c for c in st["c"] if c is not None and c >= 0]
         if k in P.TRANSPARENT:
             if k == "ImplicitCastExpr" and st.get("ck") in ("IntegralCast",) and ch:
-                a = self.ev(fn, ch[0], path)
+                a = self._point(self.ev(fn, ch[0], path), path)
                 if is_c(a):
                     return C(wrap(a[1], st.get("tk")))
                 return a
             return self.ev(fn, ch[0], path) if ch else UNK
         if k in P.EXPLICIT_CASTS:
-            a = self.ev(fn, ch[0], path) if ch else UNK
+            a = self._point(self.ev(fn, ch[0], path), path) if ch else UNK
             if is_c(a):
                 return C(wrap(a[1], st.get("tk")))
             if is_s(a):
@@ -323,11 +327,30 @@ class Interp(object):
                 path.end = "budget"
                 done.append(path)
                 return
-            if b in path.blocks and depth == 0 or path.blocks.count(b) > 1:
+            if b in path.seenf:
+                # a revisit is a real loop iteration only if the path made no
+                # non-deterministic choice since the last visit (every branch
+                # on the cycle folded): then unroll, else cut
+                static_head = False
+                hb = blocks[b]
+                if "cond" in hb and hb.get("termk") != "SwitchStmt":
+                    cv_ = self._point(self.ev(fn, hb["cond"], path), path)
+                    static_head = is_c(cv_)
+                if (path.seenf[b] != path.nforks and not static_head) or path.blocks.count(b) > 40:
+                    path.end = "loop"
+                    self.n_paths += 1
+                    done.append(path)
+                    return
+                # a permitted iteration: the blocks of the cycle may be visited again
+                for k_ in list(path.seenf):
+                    if isinstance(k_, int) and k_ != b:
+                        del path.seenf[k_]
+            elif path.blocks.count(b) > 40:
                 path.end = "loop"
                 self.n_paths += 1
                 done.append(path)
                 return
+            path.seenf[b] = path.nforks
             path.blocks.append(b)
             blk = blocks[b]
             cont = self._exec_block(fn, blk, path, depth)
@@ -397,6 +420,9 @@ class Interp(object):
                 out.append((s, p2))
             if default is not None:
                 out.append((default, path.clone()))
+            if len(out) > 1:
+                for _, p2 in out:
+                    p2.nforks += 1
             return out
         if "cond" in blk and len(succ) == 2:
             out = []
@@ -406,6 +432,9 @@ class Interp(object):
                 p2 = path.clone()
                 if self.refine(fn, blk["cond"], pol, p2):
                     out.append((s, p2))
+            if len(out) > 1:
+                for _, p2 in out:
+                    p2.nforks += 1
             return out
         return [(s, path) for s in succ if s >= 0][:1] if len(succ) <= 1 else [(s, path.clone()) for s in succ if s >= 0]
 
@@ -438,6 +467,9 @@ class Interp(object):
                                 if r:
                                     p.pc.setdefault(d["n"], r)
                             p.env[d["d"]] = v
+                        elif type_range(d.get("tk")):
+                            p.env[d["d"]] = ("s", d["n"], 0)
+                            p.pc.setdefault(d["n"], type_range(d["tk"]))
                         else:
                             p.env[d["d"]] = UNK
                     newpaths.append(p)
@@ -469,9 +501,26 @@ class Interp(object):
                             p.env[l["ref"]["d"]] = ("s", v[1], v[2] + d)
                         else:
                             p.env[l["ref"]["d"]] = UNK
+                        p.events.append(("incr", l["ref"]["n"], 1 if st["op"] == "++" else -1, e))
+                    elif l["k"] == "DeclRefExpr":
+                        p.events.append(("incr", l["ref"]["n"], 1 if st["op"] == "++" else -1, e))
                     newpaths.append(p)
                 elif k in P.CALL_KINDS and "callee" in st:
                     q = st["callee"]["q"]
+                    # arguments bound to non-const references are clobbered
+                    cal = self.prog.fns.get(st["callee"]["key"])
+                    if cal is not None:
+                        for prm, a in zip(cal.params, st.get("args", [])):
+                            if "&" in prm["t"] and not prm["t"].startswith("const "):
+                                sa = fn.s(fn.strip(a, casts=True))
+                                if sa["k"] == "DeclRefExpr" and sa["ref"]["d"] in p.env:
+                                    nm_ = sa["ref"]["n"]
+                                    if nm_ in getattr(self, "rebind_once", ()) and ("rebound", nm_) not in p.seenf:
+                                        # the first value read into it is the pinned symbol
+                                        p.seenf[("rebound", nm_)] = 1
+                                        p.env[sa["ref"]["d"]] = ("s", nm_, 0)
+                                    else:
+                                        p.env[sa["ref"]["d"]] = UNK
                     if any(q.endswith(s) for s in self.emit):
                         args = []
                         for a in st.get("args", []):
@@ -480,7 +529,7 @@ class Interp(object):
                             sa = fn.s(fn.strip(a, casts=False))
                             ct = sa.get("tk") if sa["k"] in P.EXPLICIT_CASTS else fn.s(a).get("tk")
                             args.append((v, ct, a))
-                        p.events.append(("call", q, args, e))
+                        p.events.append(("call", q, args, e, st["callee"]["key"]))
                         newpaths.append(p)
                     elif any(q.endswith(s) for s in self.inline) and depth < 3 and st["callee"]["key"] in self.prog.fns:
                         callee = self.prog.fns[st["callee"]["key"]]
